@@ -164,14 +164,19 @@ def y_scripts(seed, count):
         steps = []
         alive, invalid, nid = [], set(), 1
         used_keys = []
+        throwing = n % 6 == 4    # every sixth history: some callbacks throw out of notify(); no invalidated observers in these
+        thr_of = {}
         for k in range(rnd.randrange(10, 40)):
             r = rnd.random()
+            if throwing and 0.42 <= r < 0.50:
+                r = 0.6     # a notify instead of an Invalidate
             if (r < 0.3 or not alive) and nid <= 8:
                 key = tuple(rnd.choice(["a", "b", "c", "a", "b", "ab"]) for _ in range(rnd.randrange(1, 5)))
                 if used_keys and rnd.random() < 0.45:
                     key = rnd.choice(used_keys)    # several observers under one key, subscribed at different times
                 used_keys.append(key)
                 steps.append(("Subscribe", key, nid))
+                thr_of[nid] = 1 if throwing and rnd.random() < 0.3 else 0
                 alive.append(nid)
                 nid += 1
             elif r < 0.42 and [i for i in alive if i not in invalid]:
@@ -189,7 +194,7 @@ def y_scripts(seed, count):
         lines.append("X %s router=%s sig=%s table=0 probes=%s" % (xid, rt, sig, ";".join(pstr(p) for p in YPROBES)))
         for k, (op, p, i) in enumerate(steps):
             if op == "Subscribe":
-                lines.append("S op=Subscribe k=%s" % pstr(p))
+                lines.append("S op=Subscribe k=%s thr=%d" % (pstr(p), thr_of.get(i, 0)))
             elif op in ("Unsubscribe", "Invalidate"):
                 lines.append("S op=%s id=%d" % (op, i))
             elif op == "Notify":
@@ -197,7 +202,7 @@ def y_scripts(seed, count):
             else:
                 lines.append("S op=Shrink p=%s" % pstr(p))
         lines.append("E")
-        cfgs[xid] = {"rt": rt, "sig": sig, "steps": steps}
+        cfgs[xid] = {"rt": rt, "sig": sig, "steps": steps, "thr": thr_of}
     return "\n".join(lines) + "\n", cfgs
 
 
@@ -208,7 +213,7 @@ def y_check(pid, tier, seed, exe, verdict):
     execs = {}
     for x, c in cfgs.items():
         recs = res.get(x, [])
-        evs = [{"op": "Probes", "p": [], "id": 0, "dl": [], "ret": 0, "dp": 0, "ex": [], "probes": [list(p) for p in YPROBES]}]
+        evs = [{"op": "Probes", "p": [], "id": 0, "dl": [], "ret": 0, "dp": 0, "ex": [], "probes": [list(p) for p in YPROBES], "thr": 0}]
         bad_values = None
         for r in recs:
             if r.get("e") != "Obs":
@@ -216,7 +221,8 @@ def y_check(pid, tier, seed, exe, verdict):
             op, p, i = c["steps"][r["i"]]
             if op == "Notify" and any(e[1] != EXPECT[c["sig"]](r["i"] + 1) for e in r["log"]) and bad_values is None:
                 bad_values = (r["i"], p, [e[1] for e in r["log"]])
-            evs.append({"op": op, "p": list(p), "id": i, "dl": sorted(e[0] for e in r["log"]), "ret": max(r["ret"], 0), "dp": r["dp"], "ex": r["ex"], "probes": []})
+            evs.append({"op": r.get("op", op) if op == "Notify" else op, "p": list(p), "id": i, "dl": sorted(e[0] for e in r["log"]), "ret": max(r["ret"], 0), "dp": r["dp"], "ex": r["ex"],
+                        "probes": [], "thr": c["thr"].get(i, 0) if op == "Subscribe" else 0})
         execs[x] = evs
         crash = next((r for r in recs if r.get("e") == "Crash"), None)
         hist = ["%s %s %s" % (op, pstr(p), i or "") for op, p, i in c["steps"]]
